@@ -114,6 +114,41 @@ def array_roots(a):
     return out
 
 
+_prenex_n = [0]
+
+
+def prenex(q):
+    """forall x. A(x) or (forall y. B(x, y))  ==>  forall x, y. A(x) or B(x, y)   (universal quantifiers below only and/or, i.e. in
+    positive position after NNF; the sorts are non-empty, so the two are equivalent).  The instantiation engine matches triggers
+    on one flat quantifier."""
+    if not has_quant(q.body()):
+        return q
+    consts = []
+
+    def open_(f):
+        _prenex_n[0] += 1
+        vs = [z3.Const('px!%d!%d' % (_prenex_n[0], i), f.var_sort(i)) for i in range(f.num_vars())]
+        consts.extend(vs)
+        return walk(z3.substitute_vars(f.body(), *reversed(vs)))
+
+    def walk(f):
+        if not has_quant(f):
+            return f
+        if z3.is_quantifier(f):
+            if f.is_forall():
+                return open_(f)
+            return f
+        if z3.is_and(f):
+            return z3.And([walk(c) for c in f.children()])
+        if z3.is_or(f):
+            return z3.Or([walk(c) for c in f.children()])
+        return f
+    body = open_(q)
+    if has_quant(body):
+        return q        # something could not be pulled out: keep the original (the native engines still see it)
+    return z3.ForAll(consts, body)
+
+
 class Inst:
     def __init__(self, formulas, rounds=3, use_idx=False):
         self.rounds = rounds
@@ -132,7 +167,7 @@ class Inst:
                 self.add_formula(c)
             return
         if z3.is_quantifier(f) and f.is_forall():
-            self.quants.append(f)
+            self.quants.append(prenex(f))
             return
         if not has_quant(f):
             self.ground.append(f)
@@ -148,7 +183,7 @@ class Inst:
                 p = z3.Bool('proxy!%d' % self.proxy_n)
                 vs = [z3.Const('pv!%d!%d' % (self.proxy_n, i), f.var_sort(i)) for i in range(f.num_vars())]
                 body = z3.substitute_vars(f.body(), *reversed(vs))
-                self.quants.append(z3.ForAll(vs, z3.Implies(p, body)))
+                self.quants.append(prenex(z3.ForAll(vs, z3.Or(z3.Not(p), body))))
                 return p
             raise ValueError('unexpected existential after skolemisation')
         if not has_quant(f):
@@ -167,6 +202,8 @@ class Inst:
         cache = {}
         for f in forms:
             for t in subterms(f, lambda x: z3.is_select(x) or (z3.is_app(x) and x.decl().kind() == z3.Z3_OP_UNINTERPRETED and x.num_args() > 0)):
+                if has_var(t, cache):
+                    continue      # (quantifier bodies are scanned for their ground subterms only)
                 if z3.is_select(t):
                     arr, idx = t.children()[0], t.children()[1]
                     for r in array_roots(arr):
@@ -181,6 +218,8 @@ class Inst:
         # Store(A, i, v): index i is also an interesting ground term for A
         for f in forms:
             for t in subterms(f, z3.is_store):
+                if has_var(t, cache):
+                    continue
                 i = t.children()[1]
                 for r in array_roots(t):
                     reads.setdefault(r.get_id(), {})[i.get_id()] = i
@@ -344,7 +383,7 @@ class Inst:
         self.idx_consts = self.index_constants(forms)
         for rnd in range(self.rounds):
             allf = forms + list(instances.values())
-            reads, apps = self.ground_reads(allf)
+            reads, apps = self.ground_reads(allf + [q.body() for q in self.quants])
             find = self.alias_classes(allf)
             class_reads = {}
             for rid, d in reads.items():
@@ -449,6 +488,9 @@ def relevant(hyps, goal, depth):
     return [h for i, h in enumerate(hyps) if chosen[i]]
 
 
+TRACE = bool(os.environ.get('PYVC_TRACE'))
+
+
 def prove(hyps, goal, timeout_ms=10000, rounds=5, want_model=False, fallbacks=True):
     """1. deterministic instantiation over all hypotheses; 2. the same over only the hypotheses near the goal (any subset is sound),
     with index-like skolem constants as extra candidates; 3. all hypotheses with those candidates; 4. z3 quantifiers; 5. cvc5."""
@@ -457,6 +499,8 @@ def prove(hyps, goal, timeout_ms=10000, rounds=5, want_model=False, fallbacks=Tr
     if not any(has_quant(f) for f in forms):
         return _prove(hyps, goal, timeout_ms, rounds, want_model, fallbacks)
     first = _prove(hyps, goal, timeout_ms, 3, want_model, False)
+    if TRACE:
+        print('   stage first', len(hyps), first['status'], first.get('n_inst'), round(time.time() - t0, 1), flush=True)
     if first['status'] == 'proved' or not fallbacks:
         return first
     # quick shot of z3's own quantifier engine (many obligations fall to it within a second)
@@ -468,16 +512,23 @@ def prove(hyps, goal, timeout_ms=10000, rounds=5, want_model=False, fallbacks=Tr
         return {'status': 'proved', 'backend': 'z3-quant', 'secs': time.time() - t0, 'n_inst': first.get('n_inst', 0), 'model': None}
     if len(hyps) > 8:
         # locality: the most recent hypotheses (facts of the last few statements) are tried first, then symbol-relevance closures
-        subsets = [('recent %d' % k, list(hyps[-k:])) for k in (6, 12, 24) if k < len(hyps)]
+        subsets = []
+        for depth in (1, 2):
+            # cheapest first: near hypotheses, plain triggers only (no index-constant candidates)
+            subsets.append(('relevance %d, plain' % depth, relevant(hyps, goal, depth), False))
+        subsets += [('recent %d' % k, list(hyps[-k:]), True) for k in (6, 12, 24) if k < len(hyps)]
         for depth in (1, 2, 3):
             sub = relevant(hyps, goal, depth)
             if len(sub) < len(hyps):
-                subsets.append(('relevance %d' % depth, sub))
-        for tag, sub in subsets:
+                subsets.append(('relevance %d' % depth, sub, True))
+        for tag, sub, uidx in subsets:
             depth = tag
             try:
-                inst = Inst(nnf_skolem(list(sub) + [z3.Not(goal)]), rounds=rounds, use_idx=True)
+                inst = Inst(nnf_skolem(list(sub) + [z3.Not(goal)]), rounds=rounds, use_idx=uidx)
+                ts = time.time()
                 r, _ = inst.run(min(timeout_ms, 4000))
+                if TRACE:
+                    print('   stage', tag, len(sub), r, inst.n_inst, round(time.time() - ts, 1), flush=True)
                 if r == 'unsat':
                     return {'status': 'proved', 'backend': 'inst+z3-qf(%s)' % depth, 'secs': time.time() - t0, 'n_inst': inst.n_inst, 'model': None}
             except Exception:
